@@ -146,7 +146,8 @@ def ref_sweeten(cls, data, op):
         if not isinstance(data, dict):
             return data
         sig = inspect.signature(cls.__init__)
-        defaults = {n: p.default for n, p in sig.parameters.items() if p.default is not p.empty}
+        # (_yatiml_extra holds the extra attributes, it is not an attribute: a key of that name is an extra like any other)
+        defaults = {n: p.default for n, p in sig.parameters.items() if p.default is not p.empty and n != '_yatiml_extra'}
         defaults.update({k_: v for k_, v in getattr(cls, '_yatiml_defaults', {}).items() if k_ in defaults})
         out = collections.OrderedDict()
         for key, val in data.items():
@@ -296,6 +297,8 @@ def snapshot(v, seen=None, depth=0):
     if isinstance(v, (datetime.date, pathlib.PurePath, enum.Enum)):
         return ('atom', me, type(v).__name__, repr(v))
     d = getattr(v, '__dict__', None)
+    if d is None and any(hasattr(k, '__slots__') for k in type(v).__mro__):
+        d = {n: getattr(v, n) for k in reversed(type(v).__mro__) for n in getattr(k, '__slots__', ()) if hasattr(v, n)}
     extra = repr(str(v)) if isinstance(v, (str, collections.UserString)) else ''
     if isinstance(d, dict):
         return ('obj', me, type(v).__name__, extra, [(k, snapshot(x, seen, depth + 1)) for k, x in d.items()])
